@@ -159,7 +159,7 @@ impl Ctx {
                     }
                 }
                 "panic" => {
-                    if e["at"].is_null() || e["at"].as_i64() == Some(run_no) {
+                    if e["at"].is_null() || run_no == 0 || e["at"].as_i64() == Some(run_no) {
                         panic!("injected user panic");
                     }
                 }
